@@ -160,6 +160,15 @@ func c11Match(c *vrep.Ctx) {
 		// Normalize runs on the SAME classifier that matches (it interns the words it sees in the
 		// classifier's dictionary): a private instance, so that other jobs are not affected
 		cl = vEmbedded(t)
+		// and its history starts with ONE large text of 3 000 words the dictionary has never seen
+		var sb strings.Builder
+		for i := 0; i < 3000; i++ {
+			fmt.Fprintf(&sb, "Zqbig%c%c%c ", 'a'+i%26, 'a'+(i/26)%26, 'a'+i/676)
+			if i%10 == 9 {
+				sb.WriteByte('\n')
+			}
+		}
+		cl.Normalize([]byte(sb.String()))
 	}
 	docs := vCorpusFiles()
 	fams := strings.Split(c.Param("families", "exact,scenario,concat"), ",")
